@@ -308,4 +308,473 @@ theorem validate_ok_inv (f : File) (h : validate f = .ok) :
   have h3' : ¬ (closureOf f).any (fun p => p.2.contains p.1) = true := h3
   simpa using h3'
 
+/-- Everything `validate f = .ok` establishes, stated on the file itself. -/
+theorem validate_ok_summary (f : File) (h : validate f = .ok) :
+    dupIn (f.consts.map (·.name)) = false ∧
+    (defNames f).Nodup ∧
+    (∀ n ∈ defNames f, isPrimitiveName n = false) ∧
+    (∀ e ∈ f.enums, dupIn (e.options.map (·.name)) = false ∧
+      (if e.unsigned then dupIn (e.options.map (·.uvalue)) else dupIn (e.options.map (·.value))) = false) ∧
+    (∀ s ∈ f.structs, dupIn (s.fields.map (·.name)) = false) ∧
+    (∀ m ∈ f.messages, dupIn (m.fields.map (·.2.name)) = false) ∧
+    ((f.structs.map (·.opCode) ++ f.messages.map (·.opCode) ++ f.unions.map (·.opCode)).filter (· != 0)).Nodup ∧
+    f.structs.all (fun s => s.fields.all (fun fd => typeDefined (defNames f ++ Facts.primitiveTypeNames.map strOf) fd.ft)) = true ∧
+    f.messages.all (fun m => m.fields.all (fun p => typeDefined (defNames f ++ Facts.primitiveTypeNames.map strOf) p.2.ft)) = true ∧
+    (closureOf f).any (fun p => p.2.contains p.1) = false := by
+  obtain ⟨hc, c1, c2, o2, c3, o3, c4, o4, he, hs, hm, hu, ht1, ht2, hcl⟩ := validate_ok_inv f h
+  obtain ⟨e1, e2, e3⟩ := enums_inr _ _ _ he
+  obtain ⟨s1, s2, s3, s4, s5⟩ := structs_inr _ _ _ _ _ hs
+  obtain ⟨m1, m2, m3, m4, m5⟩ := messages_inr _ _ _ _ _ hm
+  obtain ⟨u1, u2, u3, u4, u5⟩ := unions_inr _ _ _ _ _ hu
+  have hdef : c4 = defNames f := by
+    rw [u1, m1, s1, e1]; simp [defNames]
+  have hops : o4 = (f.structs.map (·.opCode) ++ f.messages.map (·.opCode) ++ f.unions.map (·.opCode)).filter (· != 0) := by
+    rw [u2, m2, s2]; simp [List.filter_append]
+  refine ⟨hc, ?_, ?_, ?_, ?_, ?_, ?_, ?_, ?_, hcl⟩
+  · rw [← hdef]; exact u4 (m4 (s4 (e3 List.nodup_nil)))
+  · intro n hn
+    simp only [defNames, List.mem_append, List.mem_map] at hn
+    rcases hn with ((⟨x, hx, rfl⟩ | ⟨x, hx, rfl⟩) | ⟨x, hx, rfl⟩) | ⟨x, hx, rfl⟩
+    · exact (e2 x hx).1
+    · exact (s3 x hx).1
+    · exact (m3 x hx).1
+    · exact (u3 x hx).1
+  · intro e hx; exact (e2 e hx).2
+  · intro s hx; exact (s3 s hx).2
+  · intro m hx; exact (m3 m hx).2
+  · rw [← hops]; exact u5 (m5 (s5 List.nodup_nil))
+  · rw [← hdef]; exact ht1
+  · rw [← hdef]; exact ht2
+
+/-! ### The infinite-struct check: a closed usage table has no self-containing struct -/
+
+/-- `u` is closed under one more sweep, as sets. -/
+def StableSets (u : List (Str × List Str)) : Prop :=
+  ∀ p ∈ u, ∀ q ∈ u, p.1 ≠ q.1 → q.1 ∈ p.2 → ∀ x ∈ q.2, x ∈ p.2
+
+/-- every row of `u0` has a row of `u` with the same key that contains it. -/
+def ExtendsSets (u0 u : List (Str × List Str)) : Prop :=
+  ∀ p ∈ u0, ∃ q ∈ u, q.1 = p.1 ∧ ∀ x ∈ p.2, x ∈ q.2
+
+theorem directlyContains_usage0 (f : File) (a b : Str) (h : directlyContains f a b = true) :
+    ∃ p ∈ usage0Of f, p.1 = a ∧ b ∈ p.2 := by
+  simp only [directlyContains, List.any_eq_true, Bool.and_eq_true, beq_iff_eq] at h
+  obtain ⟨t, ht, hname, fd, hfd, hft⟩ := h
+  refine ⟨(t.name, usedTypesStruct t), ?_, hname, ?_⟩
+  · simp only [usage0Of, List.mem_map]
+    exact ⟨t, ht, rfl⟩
+  · simp only [usedTypesStruct, List.mem_flatMap]
+    refine ⟨fd, hfd, ?_⟩
+    split at hft
+    · rename_i n hn
+      rw [hn]
+      simp only [beq_iff_eq] at hft
+      simp [usedTypesFT, hft]
+    · cases hft
+
+theorem directlyContains_closure (f : File) (u : List (Str × List Str)) (he : ExtendsSets (usage0Of f) u)
+    (a b : Str) (h : directlyContains f a b = true) : ∃ q ∈ u, q.1 = a ∧ b ∈ q.2 := by
+  obtain ⟨p, hp, hpa, hpb⟩ := directlyContains_usage0 f a b h
+  obtain ⟨q, hq, hqk, hsub⟩ := he p hp
+  exact ⟨q, hq, hqk.trans hpa, hsub b hpb⟩
+
+theorem reachesSelf_false_of_mem (f : File) (u : List (Str × List Str))
+    (hst : StableSets u) (he : ExtendsSets (usage0Of f) u) (hno : ∀ p ∈ u, p.1 ∉ p.2)
+    (p : Str × List Str) (hp : p ∈ u) :
+    ∀ (n : Nat) (cur : Str), cur ∈ p.2 → reachesSelf f p.1 n cur = false := by
+  intro n
+  induction n with
+  | zero => intro cur _; rfl
+  | succ n ih =>
+    intro cur hcur
+    simp only [reachesSelf]
+    rw [Bool.eq_false_iff]
+    intro hany
+    simp only [List.any_eq_true, Bool.and_eq_true, Bool.or_eq_true, beq_iff_eq] at hany
+    obtain ⟨s, _, hdc, hrest⟩ := hany
+    obtain ⟨q, hq, hqk, hsq⟩ := directlyContains_closure f u he cur s.name hdc
+    have hne : p.1 ≠ q.1 := by
+      intro e
+      apply hno p hp
+      rw [e, hqk]; exact hcur
+    have hin : s.name ∈ p.2 := hst p hp q hq hne (by rw [hqk]; exact hcur) _ hsq
+    rcases hrest with hs | hr
+    · exact hno p hp (hs ▸ hin)
+    · rw [ih s.name hin] at hr
+      cases hr
+
+theorem reachesSelf_false (f : File) (u : List (Str × List Str))
+    (hst : StableSets u) (he : ExtendsSets (usage0Of f) u) (hno : ∀ p ∈ u, p.1 ∉ p.2)
+    (a : Str) (n : Nat) : reachesSelf f a n a = false := by
+  cases n with
+  | zero => rfl
+  | succ n =>
+    simp only [reachesSelf]
+    rw [Bool.eq_false_iff]
+    intro hany
+    simp only [List.any_eq_true, Bool.and_eq_true, Bool.or_eq_true, beq_iff_eq] at hany
+    obtain ⟨s, _, hdc, hrest⟩ := hany
+    obtain ⟨q, hq, hqk, hsq⟩ := directlyContains_closure f u he a s.name hdc
+    rcases hrest with hs | hr
+    · apply hno q hq
+      rw [hqk, ← hs]; exact hsq
+    · have := reachesSelf_false_of_mem f u hst he hno q hq n s.name hsq
+      rw [hqk] at this
+      rw [this] at hr
+      cases hr
+
+/-! ### The decidable stability certificate -/
+
+/-- Boolean form of `StableSets`. -/
+def stableB (u : List (Str × List Str)) : Bool :=
+  u.all (fun p => u.all (fun q => !(p.1 != q.1 && p.2.contains q.1) || q.2.all (fun x => p.2.contains x)))
+
+/-- `u` has the keys of `u0` in the same order, and row by row contains `u0`. -/
+def extendsB (u0 u : List (Str × List Str)) : Bool :=
+  (u.map (·.1) == u0.map (·.1)) && (u0.zip u).all (fun pq => pq.1.2.all (fun x => pq.2.2.contains x))
+
+/-- The closure that `validate f` computes is closed under one more sweep (as sets) and extends the direct
+    usage table. Decidable, and checked by evaluation on every file the engine runs. -/
+def closureStable (f : File) : Bool :=
+  let usage0 := f.structs.map (fun s => (s.name, usedTypesStruct s))
+  let bound := usage0.length * (usage0.length + (usage0.foldl (fun n p => n + p.2.length) 0)) + 1
+  let u := usageClosure bound usage0
+  stableB u && extendsB usage0 u
+
+theorem closureStable_eq (f : File) :
+    closureStable f = (stableB (closureOf f) && extendsB (usage0Of f) (closureOf f)) := rfl
+
+theorem stableB_sound (u : List (Str × List Str)) (h : stableB u = true) : StableSets u := by
+  intro p hp q hq hne hin x hx
+  simp only [stableB, List.all_eq_true] at h
+  have h1 := h p hp q hq
+  simp only [Bool.or_eq_true, Bool.not_eq_true', Bool.and_eq_false_iff, bne_eq_false_iff_eq,
+    List.all_eq_true, List.contains_eq_mem, decide_eq_true_eq, decide_eq_false_iff_not] at h1
+  rcases h1 with (h1 | h1) | h1
+  · exact absurd h1 hne
+  · exact absurd hin h1
+  · exact h1 x hx
+
+theorem extendsB_sound (u0 u : List (Str × List Str)) (h : extendsB u0 u = true) : ExtendsSets u0 u := by
+  induction u0 generalizing u with
+  | nil => intro p hp; cases hp
+  | cons p0 r0 ih =>
+    cases u with
+    | nil => simp [extendsB] at h
+    | cons q r =>
+      simp only [extendsB, List.map_cons, beq_iff_eq, List.cons.injEq, List.zip_cons_cons, List.all_cons,
+        Bool.and_eq_true, List.all_eq_true, List.contains_eq_mem, decide_eq_true_eq] at h
+      obtain ⟨⟨hk, hks⟩, hhd, htl⟩ := h
+      have hr : extendsB r0 r = true := by
+        simp only [extendsB, Bool.and_eq_true, beq_iff_eq, List.all_eq_true, List.contains_eq_mem,
+          decide_eq_true_eq]
+        exact ⟨hks, htl⟩
+      intro p hp
+      rcases List.mem_cons.1 hp with rfl | hm
+      · exact ⟨q, by simp, hk, hhd⟩
+      · obtain ⟨q', hq', h1, h2⟩ := ih r hr p hm
+        exact ⟨q', List.mem_cons_of_mem _ hq', h1, h2⟩
+
+
+/-! ### The fuel of the usage fixpoint always suffices
+
+`usageSweep` only ever adds elements to a row, every element it adds is an element of some row of the initial
+table, and the loop stops as soon as a sweep adds nothing; so at most `rows × (all elements)` sweeps can add
+something, which is below `bound`. -/
+
+def sweepStep (a : Str) (acc : List Str) (q : Str × List Str) : List Str :=
+  if a != q.1 && acc.contains q.1 then acc ++ q.2.filter (fun x => !acc.contains x) else acc
+
+def sweepRow (a : Str) (usage : List (Str × List Str)) (ua : List Str) : List Str :=
+  usage.foldl (sweepStep a) ua
+
+theorem usageSweep_eq (u : List (Str × List Str)) :
+    usageSweep u = u.map (fun p => (p.1, sweepRow p.1 u p.2)) := rfl
+
+def sumBy {α} (g : α → Nat) : List α → Nat
+  | [] => 0
+  | a :: l => g a + sumBy g l
+
+theorem foldl_add_eq {α} (g : α → Nat) (l : List α) (k : Nat) :
+    l.foldl (fun n p => n + g p) k = k + sumBy g l := by
+  induction l generalizing k with
+  | nil => simp [sumBy]
+  | cons a l ih => simp only [List.foldl_cons, ih, sumBy]; omega
+
+def card (l : List Str) : Nat := l.eraseDups.length
+
+theorem usageSize_eq (u : List (Str × List Str)) : usageSize u = sumBy (fun p => card p.2) u := by
+  simp only [usageSize, foldl_add_eq, card]; omega
+
+theorem nodup_eraseDups_aux : ∀ (n : Nat) (l : List Str), l.length ≤ n → l.eraseDups.Nodup := by
+  intro n
+  induction n with
+  | zero =>
+    intro l hl
+    have : l = [] := List.length_eq_zero_iff.1 (by omega)
+    subst this; simp
+  | succ n ih =>
+    intro l hl
+    cases l with
+    | nil => simp
+    | cons a as =>
+      rw [List.eraseDups_cons, List.nodup_cons]
+      constructor
+      · intro hm
+        rw [List.mem_eraseDups, List.mem_filter] at hm
+        simp at hm
+      · apply ih
+        have := List.length_filter_le (fun b => !b == a) as
+        simp only [List.length_cons] at hl
+        omega
+
+theorem nodup_eraseDups (l : List Str) : l.eraseDups.Nodup := nodup_eraseDups_aux _ l (Nat.le_refl _)
+theorem card_le_of_subset (l l' : List Str) (h : ∀ x ∈ l, x ∈ l') : card l ≤ card l' := by
+  apply (nodup_eraseDups l).length_le_of_subset
+  intro x hx
+  rw [List.mem_eraseDups] at hx ⊢
+  exact h x hx
+
+theorem card_le_length_of_subset (l U : List Str) (h : ∀ x ∈ l, x ∈ U) : card l ≤ U.length := by
+  apply (nodup_eraseDups l).length_le_of_subset
+  intro x hx
+  rw [List.mem_eraseDups] at hx
+  exact h x hx
+
+theorem subset_of_card_le (l l' : List Str) (h : ∀ x ∈ l, x ∈ l') (hc : card l' ≤ card l) : ∀ x ∈ l', x ∈ l := by
+  intro x hx
+  apply Classical.byContradiction
+  intro hnx
+  have hnd : (x :: l.eraseDups).Nodup := by
+    rw [List.nodup_cons]
+    exact ⟨by rw [List.mem_eraseDups]; exact hnx, nodup_eraseDups l⟩
+  have := hnd.length_le_of_subset (l₂ := l'.eraseDups) (by
+    intro y hy
+    rw [List.mem_eraseDups]
+    rcases List.mem_cons.1 hy with rfl | hy
+    · exact hx
+    · exact h y (List.mem_eraseDups.1 hy))
+  simp only [List.length_cons, card] at this hc
+  omega
+
+/-! sweepStep / sweepRow -/
+
+theorem sweepStep_mono (a : Str) (acc : List Str) (q : Str × List Str) : ∀ x ∈ acc, x ∈ sweepStep a acc q := by
+  intro x hx
+  unfold sweepStep
+  split
+  · exact List.mem_append_left _ hx
+  · exact hx
+
+theorem sweepStep_in (U : List Str) (a : Str) (acc : List Str) (q : Str × List Str)
+    (h1 : ∀ x ∈ acc, x ∈ U) (h2 : ∀ x ∈ q.2, x ∈ U) : ∀ x ∈ sweepStep a acc q, x ∈ U := by
+  intro x hx
+  unfold sweepStep at hx
+  split at hx
+  · rcases List.mem_append.1 hx with h | h
+    · exact h1 x h
+    · exact h2 x (List.mem_filter.1 h).1
+  · exact h1 x hx
+
+theorem sweepRow_in (U : List Str) (a : Str) (L : List (Str × List Str)) (acc : List Str)
+    (h1 : ∀ x ∈ acc, x ∈ U) (h2 : ∀ q ∈ L, ∀ x ∈ q.2, x ∈ U) : ∀ x ∈ sweepRow a L acc, x ∈ U := by
+  induction L generalizing acc with
+  | nil => simpa [sweepRow] using h1
+  | cons q0 L ih =>
+    simp only [sweepRow, List.foldl_cons]
+    apply ih
+    · exact sweepStep_in U a acc q0 h1 (h2 q0 (by simp))
+    · intro q hq; exact h2 q (List.mem_cons_of_mem _ hq)
+
+theorem sweepRow_closed (a : Str) (L : List (Str × List Str)) (acc : List Str) :
+    (∀ x ∈ acc, x ∈ sweepRow a L acc) ∧
+    (∀ q ∈ L, a ≠ q.1 → q.1 ∈ acc → ∀ x ∈ q.2, x ∈ sweepRow a L acc) := by
+  induction L generalizing acc with
+  | nil => simp [sweepRow]
+  | cons q0 L ih =>
+    simp only [sweepRow, List.foldl_cons]
+    obtain ⟨ih1, ih2⟩ := ih (sweepStep a acc q0)
+    simp only [sweepRow] at ih1 ih2
+    refine ⟨fun x hx => ih1 x (sweepStep_mono a acc q0 x hx), ?_⟩
+    intro q hq hne hin x hx
+    rcases List.mem_cons.1 hq with rfl | hq
+    · apply ih1
+      unfold sweepStep
+      have hc : (a != q.1 && acc.contains q.1) = true := by simp [hne, hin]
+      rw [if_pos hc]
+      by_cases hxa : x ∈ acc
+      · exact List.mem_append_left _ hxa
+      · apply List.mem_append_right
+        rw [List.mem_filter]
+        exact ⟨hx, by simpa using hxa⟩
+    · exact ih2 q hq hne (sweepStep_mono a acc q0 _ hin) x hx
+
+theorem sumBy_pointwise {α} (g h : α → Nat) (l : List α) (hle : ∀ p ∈ l, g p ≤ h p) :
+    sumBy g l ≤ sumBy h l ∧ (sumBy h l ≤ sumBy g l → ∀ p ∈ l, h p ≤ g p) := by
+  induction l with
+  | nil => simp [sumBy]
+  | cons a l ih =>
+    obtain ⟨i1, i2⟩ := ih (fun p hp => hle p (List.mem_cons_of_mem _ hp))
+    have ha := hle a (by simp)
+    simp only [sumBy]
+    refine ⟨by omega, ?_⟩
+    intro hs p hp
+    rcases List.mem_cons.1 hp with rfl | hp
+    · omega
+    · exact i2 (by omega) p hp
+
+theorem sumBy_le_mul {α} (g : α → Nat) (K : Nat) (l : List α) (hle : ∀ p ∈ l, g p ≤ K) :
+    sumBy g l ≤ l.length * K := by
+  induction l with
+  | nil => simp [sumBy]
+  | cons a l ih =>
+    have := ih (fun p hp => hle p (List.mem_cons_of_mem _ hp))
+    have ha := hle a (by simp)
+    simp only [sumBy, List.length_cons, Nat.succ_mul]
+    omega
+
+theorem sumBy_map {α β} (g : β → Nat) (m : α → β) (l : List α) : sumBy g (l.map m) = sumBy (fun a => g (m a)) l := by
+  induction l with
+  | nil => rfl
+  | cons a l ih => simp [sumBy, ih]
+
+theorem usageSize_sweep (u : List (Str × List Str)) :
+    usageSize (usageSweep u) = sumBy (fun p => card (sweepRow p.1 u p.2)) u := by
+  rw [usageSize_eq, usageSweep_eq, sumBy_map]
+
+theorem usageSize_sweep_ge (u : List (Str × List Str)) : usageSize u ≤ usageSize (usageSweep u) := by
+  rw [usageSize_sweep, usageSize_eq]
+  exact (sumBy_pointwise _ _ u (fun p _ => card_le_of_subset _ _ (sweepRow_closed p.1 u p.2).1)).1
+
+theorem stable_of_size_eq (u : List (Str × List Str)) (h : usageSize (usageSweep u) = usageSize u) :
+    StableSets u := by
+  rw [usageSize_sweep, usageSize_eq] at h
+  have hp := (sumBy_pointwise (fun p => card p.2) (fun p => card (sweepRow p.1 u p.2)) u
+    (fun p _ => card_le_of_subset _ _ (sweepRow_closed p.1 u p.2).1)).2 (by omega)
+  intro p hpu q hq hne hin x hx
+  have hback := subset_of_card_le p.2 (sweepRow p.1 u p.2) (sweepRow_closed p.1 u p.2).1 (hp p hpu)
+  exact hback x ((sweepRow_closed p.1 u p.2).2 q hq hne hin x hx)
+
+/-! extendsB algebra -/
+
+theorem extendsB_cons (p q : Str × List Str) (r0 r : List (Str × List Str)) :
+    extendsB (p :: r0) (q :: r) = true ↔ (q.1 = p.1 ∧ (∀ x ∈ p.2, x ∈ q.2)) ∧ extendsB r0 r = true := by
+  simp only [extendsB, List.map_cons, beq_iff_eq, List.cons.injEq, List.zip_cons_cons, List.all_cons,
+    Bool.and_eq_true, List.all_eq_true, List.contains_eq_mem, decide_eq_true_eq]
+  constructor
+  · rintro ⟨⟨a, b⟩, c, d⟩; exact ⟨⟨a, c⟩, b, d⟩
+  · rintro ⟨⟨a, c⟩, b, d⟩; exact ⟨⟨a, b⟩, c, d⟩
+
+theorem extendsB_nil_left (u : List (Str × List Str)) : extendsB [] u = true ↔ u = [] := by
+  cases u <;> simp [extendsB]
+
+theorem extendsB_nil_right (u : List (Str × List Str)) : extendsB u [] = true ↔ u = [] := by
+  cases u <;> simp [extendsB]
+
+theorem extendsB_map (G : Str × List Str → List Str) (l : List (Str × List Str))
+    (h : ∀ p ∈ l, ∀ x ∈ p.2, x ∈ G p) : extendsB l (l.map (fun p => (p.1, G p))) = true := by
+  induction l with
+  | nil => simp [extendsB]
+  | cons p l ih =>
+    rw [List.map_cons, extendsB_cons]
+    exact ⟨⟨rfl, h p (by simp)⟩, ih (fun q hq => h q (List.mem_cons_of_mem _ hq))⟩
+
+theorem extendsB_refl (l : List (Str × List Str)) : extendsB l l = true := by
+  induction l with
+  | nil => simp [extendsB]
+  | cons p l ih => rw [extendsB_cons]; exact ⟨⟨rfl, fun _ h => h⟩, ih⟩
+
+theorem extendsB_trans (a b c : List (Str × List Str)) (h1 : extendsB a b = true) (h2 : extendsB b c = true) :
+    extendsB a c = true := by
+  induction a generalizing b c with
+  | nil =>
+    rw [extendsB_nil_left] at h1; subst h1
+    exact h2
+  | cons p a ih =>
+    cases b with
+    | nil => rw [extendsB_nil_right] at h1; cases h1
+    | cons q b =>
+      cases c with
+      | nil => rw [extendsB_nil_right] at h2; cases h2
+      | cons r c =>
+        rw [extendsB_cons] at h1 h2 ⊢
+        exact ⟨⟨h2.1.1.trans h1.1.1, fun x hx => h2.1.2 x (h1.1.2 x hx)⟩, ih b c h1.2 h2.2⟩
+
+theorem extendsB_sweep (u : List (Str × List Str)) : extendsB u (usageSweep u) = true := by
+  rw [usageSweep_eq]
+  exact extendsB_map (fun p => sweepRow p.1 u p.2) u (fun p _ => (sweepRow_closed p.1 u p.2).1)
+
+/-! the fuel suffices -/
+
+def RowsIn (U : List Str) (u : List (Str × List Str)) : Prop := ∀ p ∈ u, ∀ x ∈ p.2, x ∈ U
+
+theorem rowsIn_sweep (U : List Str) (u : List (Str × List Str)) (h : RowsIn U u) : RowsIn U (usageSweep u) := by
+  intro p' hp'
+  rw [usageSweep_eq, List.mem_map] at hp'
+  obtain ⟨p, hp, rfl⟩ := hp'
+  exact sweepRow_in U p.1 u p.2 (h p hp) h
+
+theorem usageSize_le (U : List Str) (u : List (Str × List Str)) (h : RowsIn U u) :
+    usageSize u ≤ u.length * U.length := by
+  rw [usageSize_eq]
+  exact sumBy_le_mul _ _ u (fun p hp => card_le_length_of_subset _ _ (h p hp))
+
+theorem length_sweep (u : List (Str × List Str)) : (usageSweep u).length = u.length := by
+  rw [usageSweep_eq, List.length_map]
+
+theorem usageClosure_spec (U : List Str) (n : Nat) :
+    ∀ (fuel : Nat) (u : List (Str × List Str)), u.length = n → RowsIn U u → n * U.length < usageSize u + fuel →
+      usageSize (usageSweep (usageClosure fuel u)) = usageSize (usageClosure fuel u) ∧
+      extendsB u (usageClosure fuel u) = true := by
+  intro fuel
+  induction fuel with
+  | zero =>
+    intro u hl hr hlt
+    have := usageSize_le U u hr
+    rw [hl] at this
+    omega
+  | succ fuel ih =>
+    intro u hl hr hlt
+    simp only [usageClosure]
+    split
+    · rename_i heq
+      exact ⟨by simpa using heq, extendsB_refl u⟩
+    · rename_i hne
+      have hne' : usageSize (usageSweep u) ≠ usageSize u := by simpa using hne
+      have hge := usageSize_sweep_ge u
+      obtain ⟨i1, i2⟩ := ih (usageSweep u) (by rw [length_sweep, hl]) (rowsIn_sweep U u hr) (by omega)
+      exact ⟨i1, extendsB_trans _ _ _ (extendsB_sweep u) i2⟩
+
+theorem stableB_complete (u : List (Str × List Str)) (h : StableSets u) : stableB u = true := by
+  simp only [stableB, List.all_eq_true]
+  intro p hp q hq
+  simp only [Bool.or_eq_true, Bool.not_eq_true', Bool.and_eq_false_iff, bne_eq_false_iff_eq,
+    List.all_eq_true, List.contains_eq_mem, decide_eq_true_eq, decide_eq_false_iff_not]
+  by_cases h1 : p.1 = q.1
+  · exact Or.inl (Or.inl h1)
+  by_cases h2 : q.1 ∈ p.2
+  · exact Or.inr (h p hp q hq h1 h2)
+  · exact Or.inl (Or.inr h2)
+
+theorem length_flatMap_snd (u : List (Str × List Str)) :
+    (u.flatMap (·.2)).length = sumBy (fun p => p.2.length) u := by
+  induction u with
+  | nil => rfl
+  | cons p u ih => simp [List.flatMap_cons, sumBy, ih]
+
+/-- The fuel `bound` of the fixpoint loop always suffices: the table `validate` computes is closed. -/
+theorem closureStable_always (f : File) : closureStable f = true := by
+  rw [closureStable_eq]
+  have hU : (usage0Of f).foldl (fun n p => n + p.2.length) 0 = ((usage0Of f).flatMap (·.2)).length := by
+    rw [foldl_add_eq, length_flatMap_snd]; omega
+  have hspec := usageClosure_spec ((usage0Of f).flatMap (·.2)) (usage0Of f).length (boundOf f) (usage0Of f) rfl
+    (by
+      intro p hp x hx
+      exact List.mem_flatMap.2 ⟨p, hp, hx⟩)
+    (by
+      simp only [boundOf, hU, Nat.mul_add]
+      omega)
+  rw [Bool.and_eq_true]
+  exact ⟨stableB_complete _ (stable_of_size_eq _ hspec.1), hspec.2⟩
+
 end Bebop.Text
